@@ -252,6 +252,35 @@ Section Deck.
     clear - Hs. induction Hs as [|x y lx ly Hxy _ IH]; [constructor|]. cbn [map]. constructor; assumption.
   Qed.
 
+  (* the same with FILL = n (...) and TRCL = (...) allowed on the cards of the
+     chain: every card's tokens are read locally ([loc_imps]) and every card
+     after the base starts with a keyword, not with a number *)
+  Theorem like_written_local_zero_iff imp_cards cards lats cells skipped r key b opts l ess :
+    parse_cells RS P imp_cards cards lats = Ok (cells, skipped) ->
+    nth_error (dict_of Z.eqb cards) r = Some (key, (b, opts)) ->
+    chain_cards (S (List.length (dict_of Z.eqb cards))) (dict_of Z.eqb cards) b = Ok l ->
+    Forall (fun c => clean_opts (snd (snd c))) (dict_of Z.eqb cards) ->
+    Forall2 (fun o es => loc_imps RS P (option_tokens o) es) (rev l ++ [opts]) ess ->
+    Forall (fun o => hd_not_num (option_tokens o)) (tl (rev l ++ [opts])) ->
+    List.concat ess <> [] -> Forall (fun e => 0 <= snd e)%R (List.concat ess) ->
+    (In key skipped <->
+     forall p, In p (named (List.concat ess)) -> last_value p (List.concat ess) = Some 0%R).
+  Proof.
+    intros H Hn Hc Hd Hs Hh Hne Hnn.
+    assert (lead_colon opts = false) as Ho.
+    { rewrite Forall_forall in Hd. exact (proj2 (Hd _ (nth_error_In _ _ Hn))). }
+    destruct (resolve_chain_tokens _ _ _ opts l Hc Hd Ho) as (mat & geom & o & Hr & _ & Ht).
+    apply (chain_zero_iff _ _ _ _ _ _ _ _ _ mat geom o (List.concat ess) H Hn Hr); [|exact Hne|exact Hnn].
+    rewrite Ht.
+    replace (flat_map option_tokens (rev l) ++ option_tokens opts)
+      with (List.concat (map option_tokens (rev l ++ [opts])))
+      by (rewrite map_app, concat_app, <- flat_map_concat_map; cbn; rewrite app_nil_r; reflexivity).
+    apply loc_imps_opt. apply loc_imps_concat.
+    - clear - Hs. induction Hs as [|x y lx ly Hxy _ IH]; [constructor|]. cbn [map]. constructor; assumption.
+    - clear - Hh. destruct (rev l ++ [opts]) as [|x0 xs]; [constructor|]. cbn [map tl] in *.
+      induction Hh as [|x lx Hx _ IH]; [constructor|]. cbn [map]. constructor; assumption.
+  Qed.
+
   (* importances on data cards: the cell at rank r (no IMP keyword on its card)
      is skipped iff the entry at rank r of every IMP card is zero *)
   Theorem data_card_zero_iff imp_cards cards lats cells skipped first others r key mat geom opts :
